@@ -4,7 +4,7 @@ from wallet_common import *
 
 MANIFEST_ENTRY = dict(
     cat="model_checking", ref='DESIGN.md 4 C17', engine="wallet-tla",
-    text="TLC explores sends with a TTL of +1 block at every protocol step with blocks ticking in between, and checks ExpiredRefused / ExpiredReleased on the model; on the real code TLC checks, from the observed last-confirmed height, that a slate whose cutoff has been observed is refused without state change at receive/finalize, that a refresh at tip >= cutoff cancels the wallet's own unconfirmed entry and unlocks its inputs, and that nothing is refused or cancelled for expiry when the cutoff is 0 or ahead of the tip.",
+    text="TLC explores sends with a TTL of +1 block at every protocol step with blocks ticking in between, and checks ExpiredRefused / ExpiredReleased on the model; on the real code TLC checks, from the observed last-confirmed height, that a slate whose cutoff has been observed is refused without state change at receive/finalize, that a refresh at tip >= cutoff cancels the wallet's own unconfirmed entry and unlocks its inputs, and that nothing is refused or cancelled for expiry when the cutoff is 0, ahead of the tip, or the largest value there is (a delivery claiming u64::MAX); invoices whose cut-off has passed are paid with and without a TTL of the payer's own.",
     technique="TLC model checking of spec/MCWallet.tla + TLC-generated behaviours replayed on the real code + TLC trace validation (spec/TraceWallet.tla)",
     note=WALLET_NOTE)
 
